@@ -6,11 +6,14 @@ in-bounds / alignment / shift-count theorems of M4riProofs/Safety.lean are prove
 
 A real access outside its operand (row >= nrows, word >= width, before the first word) or a misaligned 16-byte access
 is a concrete failing input for C11; a mere difference of traces means the model no longer mirrors the code."""
-import collections, os, random, subprocess, tempfile, shutil
+import collections, os, random, re, subprocess, tempfile, shutil
 from . import build as B
 from . import core
 
 TRACE_EXE = os.path.join(core.LEAN, '.lake', 'build', 'bin', 'm4ri_trace')
+# kernels whose every operand is a window described by its OP line: real accesses are also checked against the window directly
+BOUNDS_CHECKED = ('rowadd', 'cip', 'ce', 'rowswap', 'colswap', 'readbits', 'xorbits', 'andbits', 'clearbits', 'clearoff', 'copy',
+                  'copyrow', 'add', 'submatrix', 'findpivot', 'maketable', 'processrows')
 
 
 def W(c):
@@ -117,10 +120,26 @@ def gen_cases(seed, quick=True):
     return out
 
 
+def static_kernels_text(mzd_c):
+    """the `static inline` transposition kernels of mzd.c, verbatim (the trace driver #includes them to call them directly):
+    from `_mzd_copy_transpose_64x64` up to (not including) `_mzd_transpose_base`, and from `split_round` up to `mzd_transpose`"""
+    src = open(mzd_c).read()
+    def cut(start_pat, end_pat):
+        a = re.search(start_pat, src, re.M)
+        b = re.search(end_pat, src[a.end():] if a else '', re.M)
+        if not a or not b:
+            raise RuntimeError('mzd.c: cannot locate the static transposition kernels (%s .. %s)' % (start_pat, end_pat))
+        return src[a.start():a.end() + b.start()]
+    return cut(r'^static inline void _mzd_copy_transpose_64x64\(', r'^void _mzd_transpose_base\(') + '\n' + \
+        cut(r'^static inline rci_t split_round\(', r'^mzd_t \*mzd_transpose\(')
+
+
 def run(cases, cfg=None, jobs=5):
     """dict(n, accesses, mismatches, oob, crashed); mismatches/oob are lists of dicts"""
     import concurrent.futures as cf
-    cfg = dict(cfg or B.DEFAULT_CFG)
+    # L1 = 256 bytes: the strip loops of the column-permutation kernels then run several strips on small matrices; the
+    # driver prints the value it was compiled with and the trace model takes it as a parameter
+    cfg = dict(cfg or B.DEFAULT_CFG, l1=256)
     bld = B.Build(cfg=cfg, opt='-O0', harness=None, wrap=False, defines=())
     tmp = tempfile.mkdtemp(prefix='m4riv-trace-')
     try:
@@ -130,7 +149,8 @@ def run(cases, cfg=None, jobs=5):
             o = [x for x in bld.objs if x.endswith('/%s.o' % f)][0]
             subprocess.run([bld.cc] + [c if c != '-O0' else '-O2' for c in bld.cflags] + bld.inc +
                            ['-c', os.path.join(bld.dir, 'm4ri', f + '.c'), '-o', o], check=True, capture_output=True)
-        bld.exe = bld.link_harness('trace_drv.c', wrap=False, extra=('-no-pie',))
+        open(os.path.join(bld.dir, 'tk_static.inc'), 'w').write(static_kernels_text(os.path.join(bld.dir, 'm4ri', 'mzd.c')))
+        bld.exe = bld.link_harness('trace_drv.c', wrap=False, extra=('-no-pie', '-I' + bld.dir))
         flt = os.path.join(tmp, 'flt')
         subprocess.run(['gcc', '-O2', '-o', flt, os.path.join(core.VERIF, 'harness', 'trace_flt.c')], check=True)
         chunks = [cases[i::jobs] for i in range(jobs) if cases[i::jobs]]
@@ -148,6 +168,10 @@ def run_chunk(bld, flt, tmp, cases, idx):
         casefile = os.path.join(tmp, 'cases%d.txt' % idx)
         open(casefile, 'w').write('\n'.join(cases) + '\n')
         nm = subprocess.run("nm %s | grep ' MARK$' | cut -d' ' -f1" % bld.exe, shell=True, capture_output=True, text=True).stdout.strip().lstrip('0')
+        nmt = subprocess.run("nm %s | grep ' MARKT$' | cut -d' ' -f1" % bld.exe, shell=True, capture_output=True, text=True).stdout.strip().lstrip('0')
+        if nmt:
+            t = subprocess.run("objdump -h %s | awk '$2==\".text\"{print $4, $3}'" % bld.exe, shell=True, capture_output=True, text=True).stdout.split()
+            nm = '%s %s %x %x' % (nm, nmt, int(t[0], 16), int(t[0], 16) + int(t[1], 16))
         drvout = os.path.join(tmp, 'drv%d.out' % idx); trace = os.path.join(tmp, 'trace%d.txt' % idx)
         p = subprocess.run("valgrind --tool=lackey --trace-mem=yes --log-fd=2 %s %s 2>&1 >%s | %s %s > %s" % (bld.exe, casefile, drvout, flt, nm, trace),
                            shell=True, capture_output=True, text=True)
@@ -159,8 +183,8 @@ def run_chunk(bld, flt, tmp, cases, idx):
                 d = dict(kv.split('=') for kv in l.split()[2:])
                 cur['ops'].append((int(l.split()[1]), int(d['data'], 16), int(d['rowstride']), int(d['lo'], 16), int(d['hi'], 16),
                                    int(d['nrows']), int(d['ncols'])))
-            elif l.startswith('INC') or l.startswith('BITS'):
-                cur['extra'] = l.split()[1:]
+            elif l.startswith('INC') or l.startswith('BITS') or l.startswith('X '):
+                cur['extra'] += l.split()[1:]
         traces = []; t = None
         for l in open(trace):
             if l.startswith('BEGIN'):
@@ -196,7 +220,7 @@ def run_chunk(bld, flt, tmp, cases, idx):
                         for b in range(a, a + s, 8):
                             o2 = (b - data) // 8
                             r2, w2 = (o2 // rs, o2 % rs) if rs > 0 else (0, o2)
-                            if c.split()[0] not in ('comb', 'combN') and not (0 <= r2 < nr and 0 <= w2 < width):
+                            if c.split()[0] in BOUNDS_CHECKED and not (0 <= r2 < nr and 0 <= w2 < width):
                                 bad.append('operand %d row %d word %d (access of %d bytes) outside %dx%d (width %d)' % (op, r2, w2, s, nr, nc, width))
                             for kk in kinds:
                                 words.add((op, r2, w2, kk))
